@@ -101,7 +101,19 @@ class Setup:
         n = len(raw)
         self.n = n
         self.case = case
-        if case.get("ctor", "matrix") == "matrix":
+        if case.get("ctor") == "triangle" and n == 3:
+            # the documented triple (p, q, r): orders of ab, bc, ca
+            self.G = coxeter.TriangleGroup((raw[0][1], raw[1][2], raw[2][0]))
+            want = ["a", "b", "c"]
+            ctx.check(list(self.G.ordered_gens) == want, "generator names of TriangleGroup",
+                      got=list(self.G.ordered_gens), want=want)
+            self.names = want
+            self.m = T.normalise(raw)
+            lib = T.normalise(np.array(self.G.coxeter_matrix).tolist())
+            ctx.check(lib == self.m, "TriangleGroup((p, q, r)): coxeter_matrix has p = m(a,b), "
+                      "q = m(b,c), r = m(c,a)", got=lib, want=self.m)
+            ctx.label("ctor=TriangleGroup")
+        elif case.get("ctor", "matrix") in ("matrix", "triangle"):
             style = case.get("style", "alpha")
             kw = {} if style == "default" else {"generator_style": style}
             mat = [list(r) for r in raw] if case.get("as_list") else np.array(raw)
@@ -286,7 +298,7 @@ def presentation(draw, n):
         d["flips"] = [draw(st.integers(0, 1)) for _ in range(npairs)]
         d["diag"] = draw(st.booleans())
     else:
-        d["ctor"] = "matrix"
+        d["ctor"] = "matrix" if n != 3 or k != 2 else "triangle"
         d["style"] = draw(st.sampled_from(["alpha", "alphanum", "default"]))
         d["as_list"] = draw(st.booleans())
     return d
